@@ -213,7 +213,8 @@ def check(ctx):
     # binary level (consumer = websocket client of `adlt remote` vanishing without close): runs beside the library cases
     adlt = c.build_adlt_bin()
     rtrace = ctx.path("trace-remote.ndjson")
-    shapes = "onepass_parked,control_small" if quick else "onepass_parked,control_small,paused_parked,while_parsing,while_streaming,mid_frame,onepass_parked"
+    shapes = ("onepass_parked,control_small,close_parked" if quick
+              else "onepass_parked,control_small,close_parked,paused_parked,while_parsing,while_streaming,mid_frame,onepass_parked")
     cshapes, cn = ("plain,full,devfull", "30000") if quick else ("plain,sort,filter,plugin,full,devfull,full", "300000")
     rproc = subprocess.Popen([binp, "--remote-drop", shapes, "--convert", cshapes, "--convert-n", cn, "--seed", str(ctx.seed),
                               "--adlt", adlt, "--work", ctx.work, "--out", rtrace],
